@@ -3005,9 +3005,14 @@ foamTagFormat(Foam foam)
 			}
 			else if (tag == FOAM_BInt) {
 				/* !! Should not store here. */
+				/* The length written is the 16-bit place count. */
 				BInt	bint;
+				int	slen;
+				U16	*data;
 				bint= xintStore(bintCopy(foamArgv(foam)[0].bint));
-				si  = bint->placec;
+				bintToPlacevS(bint, &slen, &data);
+				si  = slen;
+				bintReleasePlacevS(data);
 				bintFree(bint);
 			}
 			else {
